@@ -226,12 +226,17 @@ type NativeMode int
 const (
 	NativeCopy    NativeMode = iota // works on a copy
 	NativeInPlace                   // extends / returns the given map (top level only), like the repository's own native actions
+	NativeScribble                  // writes a top-level key into the map it is given, whatever it then returns (a careless native guard)
 )
 
 // Native renders the program as a core.Action backed by the model.
 func (p *Prog) Native(mode NativeMode) core.Action {
 	return &core.FuncAction{F: func(ctx context.Context, bs match.Bindings, props core.StepProps) (*core.Execution, error) {
 		out := p.Run(map[string]interface{}(bs))
+		if mode == NativeScribble && bs != nil {
+			n, _ := bs["scribbled"].(float64)
+			bs["scribbled"] = n + 1
+		}
 		switch out.Kind {
 		case "fail":
 			if p.Partial {
